@@ -101,6 +101,10 @@ Proof. exact generated_shapes_strings. Qed.
 Theorem c06_modelled_functions_unchanged_filters : shapes_hold fn_shapes shapes_filters = true.
 Proof. exact generated_shapes_filters. Qed.
 
+(* the cargo features are independent switches with nothing on by default: a feature set of the model means exactly its cfgs *)
+Theorem c06_feature_table_unchanged : features_hold cargo_features = true.
+Proof. exact generated_features. Qed.
+
 Eval vm_compute in "ASSUMPTIONS c06_skip_exact". Print Assumptions c06_skip_exact.
 Eval vm_compute in "ASSUMPTIONS c06_unknown_member_step". Print Assumptions c06_unknown_member_step.
 Eval vm_compute in "ASSUMPTIONS c06_unknown_members_irrelevant". Print Assumptions c06_unknown_members_irrelevant.
@@ -112,3 +116,4 @@ Eval vm_compute in "ASSUMPTIONS c06_enclosing_dictionary_unchanged". Print Assum
 Eval vm_compute in "ASSUMPTIONS c06_modelled_dependencies_pinned". Print Assumptions c06_modelled_dependencies_pinned.
 Eval vm_compute in "ASSUMPTIONS c06_modelled_functions_unchanged_strings". Print Assumptions c06_modelled_functions_unchanged_strings.
 Eval vm_compute in "ASSUMPTIONS c06_modelled_functions_unchanged_filters". Print Assumptions c06_modelled_functions_unchanged_filters.
+Eval vm_compute in "ASSUMPTIONS c06_feature_table_unchanged". Print Assumptions c06_feature_table_unchanged.
